@@ -370,6 +370,9 @@ func c11Body(w *W) {
 		}
 	}
 	depth := 3
+	if w.Thorough() {
+		depth = 4
+	}
 	w.Note(fmt.Sprintf("histories: every sequence of <= %d operations over %d ops {Serialize(9 small tapes incl. two with strings colliding in the dedup table), CompressMode(4), Deserialize(last blob | any of %d pre-made blobs, dst in {nil, reused, previously larger})} on one reused Serializer and destination; each history runs on a fresh Serializer (prefix replay)", depth, len(alpha), len(alpha)-len(small)-4-3))
 	report := func(hist []serOp, what, fp string) {
 		var parts []string
